@@ -28,7 +28,10 @@ COMPONENTS = {
                   'worker kills/exits/raises at before/mid/after points', 'wall clock',
                   'temp-file names', 'directory listing order', 'free-space probe',
                   'parent-side I/O errors', 'interpreter hash seed (per shard)'],
-    'stubbed_or_absent': ['argschema layer (unconstructible here; drivers supply schema defaults)',
+    'stubbed_or_absent': ['argschema layer (unconstructible here; drivers supply schema defaults; for the on-the-fly '
+                          'mapper, which constructs its sub-runners itself, ArgSchemaParser.__init__ is replaced '
+                          'inside the simulator by a stub that fills self.args from the schema classes\' declared '
+                          'defaults, without validation)',
                           'GPU/torch paths (torch absent)'],
 }
 
